@@ -6,7 +6,7 @@ namespace {
 
 void execute_c01(const Plan &plan, Verdict &v) {
     WorldCfg cfg;
-    cfg.inbuf = (int) clampl(plan.k("inbuf", 64), 2, 400);
+    cfg.inbuf = (int) clampl(plan.k("inbuf", 64), 2, 100000);
     cfg.queue = (int) clampl(plan.k("queue", 4), 1, 8);
     cfg.heap = (int) clampl(plan.k("heap", 16), 2, 64);
     cfg.wr_mode = (int) (plan.k("wr_mode", 0) & 3);
@@ -162,6 +162,33 @@ void emit_chunks(Rng &r, Plan &p, const std::string &stream, int mode) {
 
 void generate_c01(Rng &r, const GenOpts &g, Plan &p) {
     bool thorough = g.tier == "thorough";
+    if (r.chance(1, 2500)) {
+        // very long message (a block of more than 65535 bytes) through a large input buffer: lengths beyond 16 bits
+        long blen = r.chance(1, 2) ? 65536 + r.range(-3, 40) : r.range(33000, 80000);
+        std::string body;
+        body.reserve((size_t) blen);
+        uint64_t x = r.next();
+        for (long k = 0; k < blen; k++) {
+            x = mix64(x);
+            body += (char) (x & 0xff);
+        }
+        std::string len = std::to_string(blen);
+        std::string msg = std::string(r.chance(1, 2) ? "TEST:ARB? " : "TORT? 1,") + "#" + std::to_string(len.size()) + len + body + (r.chance(1, 2) ? ",5" : "") + "\n";
+        p.knob["inbuf"] = (long) msg.size() + r.range(1, 300);
+        p.knob["queue"] = r.range(1, 8);
+        p.knob["heap"] = r.range(2, 64);
+        p.knob["tb"] = r.range(0, 40);
+        p.knob["variant"] = r.range(0, 200);
+        size_t pos = 0;
+        while (pos < msg.size()) {
+            size_t n = (size_t) r.range(1500, 9000);
+            if (n > msg.size() - pos) n = msg.size() - pos;
+            p.ops.push_back(Op("in", {0}, msg.substr(pos, n)));
+            pos += n;
+        }
+        p.ops.push_back(Op("expect_consumed"));
+        return;
+    }
     MsgGenOpts mo;
     mo.torture = true;
     mo.malformed = r.chance(1, 2);
